@@ -184,32 +184,37 @@ def dtor (L : Ledger) (s : Skeleton) : Ledger :=
   | none => L
   | some k => (L.free (some k)).1
 
-/-- the private constructor mpi.hpp:133-160, `sz` is what `MPI_Type_size(dt, &dt_size)` returns.
+/-- the block `{ MPI_Type_create_hvector(subcount, 1, stride*dt_size, sub_type, &vector_datatype);
+    MPI_Type_create_resized(vector_datatype, 0, stride*dt_size, &datatype_); MPI_Type_free(&vector_datatype); }`
+    mpi.hpp:149-159; returns the new `datatype_` -/
+def level (L : Ledger) (subcount strideBytes : Int) (subType : Handle) : Ledger × Handle :=
+  let (L1, vec) := L.hvector subcount 1 strideBytes subType
+  let (L2, res) := L1.resized vec 0 strideBytes
+  let (L3, _) := L2.free vec
+  (L3, res)
+
+/-- the private constructor mpi.hpp:133-160, `dtSize` is what `MPI_Type_size(dt, &dt_size)` returns.
     Level `d` of the layout with inner levels `sub`:
       D = 1:  `sub_type = dt`
       D > 1:  `sk = skeleton(lyt.sub(), dt, lyt.sub().size()); sub_type = sk.datatype();`
-      `hvector(subcount, 1, stride·dt_size, sub_type)`, `resized(…, 0, stride·dt_size)`, free the hvector,
-      then the local `sk` is destroyed (frees the inner level's datatype), after the moved-from temporary. -/
+      then the hvector/resized/free block, then the local `sk` is destroyed (frees the inner level's datatype); the
+      moved-from temporary of the D > 1 branch died before, at the end of its full expression. -/
 def build (L : Ledger) (dt : Handle) : Layout → Int → Ledger × Skeleton
   | [], _ => (L, null)      -- `layout_t<0>`: not instantiated (D ≥ 1)
   | [d], subcount =>
     let sk := null
     let subType := dt
     let dtSize := L.typeSize dt
-    let (L1, vec) := L.hvector subcount 1 (d.stride * dtSize) subType
-    let (L2, res) := L1.resized vec 0 (d.stride * dtSize)
-    let (L3, _) := L2.free vec
+    let (L3, res) := level L subcount (d.stride * dtSize) subType
     let L4 := sk.dtor L3
     (L4, ⟨d.size, res⟩)
   | d :: d1 :: rest, subcount =>
     let (L0, tmp) := build L dt (d1 :: rest) d1.size
     let (sk, tmp') := moveFrom tmp
-    let L0' := tmp'.dtor L0                          -- the moved-from temporary dies at the end of the full expression
+    let L0' := tmp'.dtor L0
     let subType := sk.datatype
     let dtSize := L0'.typeSize dt
-    let (L1, vec) := L0'.hvector subcount 1 (d.stride * dtSize) subType
-    let (L2, res) := L1.resized vec 0 (d.stride * dtSize)
-    let (L3, _) := L2.free vec
+    let (L3, res) := level L0' subcount (d.stride * dtSize) subType
     let L4 := sk.dtor L3
     (L4, ⟨d.size, res⟩)
 
